@@ -178,6 +178,10 @@ class Shared:
         return self.dicts[frag_string]
 
 
+def hooks_count(name):
+    contracts.STATS[name] += 1
+
+
 def resolve_presentation(p, shared):
     import cgsmiles
     from cgsmiles import MoleculeResolver
@@ -200,6 +204,15 @@ def resolve_presentation(p, shared):
         lib = shared.get(p['frag_string'])
         before = [{name: contracts.snap_graph(g) for name, g in d.items()} for d in lib]
         try:
+            if len(p['base_string']) % 3 == 0:
+                # a caller first hands over the COMPLETE string (with a block defining one more unit), which this constructor
+                # refuses: whatever it does with it, the library stays the caller's
+                extra = '.{#ZQ9=[$][#A][$]}' if kw.get('last_all_atom') is False else '.{#ZQ9=[$]CO}'
+                try:
+                    MoleculeResolver.from_fragment_dicts(p['base_string'] + extra, lib, **kw).resolve_all()
+                except Exception:
+                    pass
+                hooks_count('complete_string_handed_to_from_fragment_dicts_first')
             r = MoleculeResolver.from_fragment_dicts(p['base_string'], lib, **kw)
             cg, aa = r.resolve_all()
             dump_ = util.canonical_dump(cg) + '\n' + util.canonical_dump(aa)
